@@ -88,6 +88,8 @@ def cmp_fields(a, b, probs, what):
         x, y = a.get(k), b.get(k)
         if x == y:
             continue
+        if k == "Url" and {x, y} == {"{1}/{3}/{3}_{2}.fits", "L{1}X{2}Y{3}.fits"}:
+            continue  # the two runs use different naming schemes on purpose (LXY runs)
         try:
             fx, fy = float(x), float(y)
             if abs(fx - fy) <= 1e-9 * max(abs(fx), abs(fy), 1e-12):
@@ -123,7 +125,10 @@ def run_multi_tan(spec, paths, out, par, via, log, profile):
     if via == "cli" and hdu_index is None:  # (`tile-multi-tan --hdu-index` takes ONE index: a per-file list needs the API)
         fn = lambda: cli.entrypoint(["tile-multi-tan", "--outdir", out, "-j", str(par)] + paths)
     else:
-        pio = PyramidIO(out, default_format="fits")
+        # a quarter of the API runs use the flat LXY naming scheme (the tiles are moved to the default layout afterwards for
+        # the comparisons; anything else the run leaves behind - lock files - stays where it is)
+        lxy = spec["seed"] % 4 == 1
+        pio = PyramidIO(out, default_format="fits", scheme="LXY") if lxy else PyramidIO(out, default_format="fits")
         b = Builder(pio)
         proc = MultiTanProcessor(SimpleFitsCollection(paths, hdu_index=hdu_index))
         proc.compute_global_pixelization(b)
@@ -156,6 +161,16 @@ def run_multi_tan(spec, paths, out, par, via, log, profile):
         outcome, info = "returned", {}
     recs = evlog.read(log)
     evlog.close_log()
+    if os.path.isdir(out):
+        import re
+
+        for f in os.listdir(out):
+            m = re.fullmatch(r"L(\d+)X(\d+)Y(\d+)\.(fits|npy|png|jpg)", f)
+            if m:
+                n, x, y = int(m.group(1)), int(m.group(2)), int(m.group(3))
+                dst = os.path.join(out, tilegen.tile_relpath((n, x, y), m.group(4)))
+                os.makedirs(os.path.dirname(dst), exist_ok=True)
+                os.rename(os.path.join(out, f), dst)
     return outcome, info, b, recs
 
 
@@ -312,9 +327,9 @@ def run_case(spec, workdir):
         probs.append(("multi-tan-" + o2, "second run outcome %s" % o2))
     # (d) lock files
     for d in (out1, out2):
-        locks = [f for root, _, fs in os.walk(d) for f in fs if f.endswith(".lock")]
+        locks = [f for root, _, fs in os.walk(d) for f in fs if "lock" in f.lower() and not f.endswith((".fits", ".wtml"))]
         if locks:
-            probs.append(("lockfiles-left", "%d lock files remain under %s" % (len(locks), os.path.basename(d))))
+            probs.append(("lockfiles-left", "%d lock files remain under %s, e.g. %s" % (len(locks), os.path.basename(d), locks[:3])))
     # contention: updates of one tile by different pids
     upd = collections.defaultdict(set)
     shared = collections.Counter()
